@@ -34,7 +34,7 @@ def make_case(idx):
     prefix = ''.join(k for k, _ in gen.vi_program(R, R.randint(0, 3), kind) if '.' not in k and '@' not in k)
     c, cls = change_cmd(R, kind)
     moves = ''.join(gen.vi_motion(R) for _ in range(R.randint(0, 2)))
-    variant = R.choice(['dot', 'dot', 'ndot', 'ndot', 'macro', 'macro2', 'bigdot', 'longmacro', 'junk', 'emptydel', 'faildot', 'bigmacro', 'dotreg'])
+    variant = R.choice(['dot', 'dot', 'ndot', 'ndot', 'macro', 'macro2', 'bigdot', 'longmacro', 'junk', 'emptydel', 'faildot', 'bigmacro', 'dotreg', 'nestmacro', 'digitmacro'])
     regfile = rfile = None
     if variant == 'longmacro':
         # a long register whose last key is '.', repeating a long insert: each fits the 4 KiB input queue, and the
@@ -76,6 +76,22 @@ def make_case(idx):
         regfile = ('rs r\n' + body + '\n.\n').encode()
         a = prefix + '%d@r' % N
         b = prefix + (body + '\n') * N
+    elif variant == 'nestmacro':
+        # a counted register that itself executes another register: N times the contents, each time with the inner one expanded in place
+        t2 = R.choice(['x', 'j', 'w', 'dd', 'ix\x1b', '~', ''])
+        N = R.choice([2, 2, 3, 5])
+        regfile = ('rs q\n' + c.replace('\n.\n', '\n,\n') + '\n.\nrs r\n@q' + t2 + '\n.\n').encode()
+        a = prefix + moves + '%d@r' % N
+        b = prefix + moves + (c.replace('\n.\n', '\n,\n') + '\n' + t2 + '\n') * N
+    elif variant == 'digitmacro':
+        # a counted register whose text ends in digits (a count still waiting for its command): typed N times, the digits
+        # of one copy are the count of the next copy's first command
+        d = R.choice(['1', '2', '12'])
+        N = R.choice([2, 3])
+        regfile = b'rx r cat rfile\n'
+        rfile = (c + d).encode()
+        a = prefix + moves + '%d@r' % N
+        b = prefix + moves + (c + d) * N
     elif variant == 'dotreg':
         # register "." is a register like any other for :y; what "." repeats is the last change, not what somebody stored there
         a = prefix + c1 + moves + ':2y .\n' + '.'
@@ -152,7 +168,7 @@ def run_case(args):
     orig = gen.buf_bytes(case['lines'])
     if case['variant'] in ('dot', 'ndot', 'bigdot', 'macro2', 'junk', 'dotreg', 'faildot') and not (da == db == case['c'].encode()):
         return ('ok-trivial', None, None, case)      # the first c was not taken as one command (failed motion: the rest of its keys ran on their own)
-    if case['variant'] not in ('macro', 'bigmacro'):
+    if case['variant'] not in ('macro', 'bigmacro', 'nestmacro', 'digitmacro'):
         # the change must have been taken as ONE repeatable command: register '.' (revealed at the end of run B) holds exactly its keys
         parts = ob.split(DOTSENT + b'\n')
         dot = parts[1][:-1] if len(parts) >= 3 else None
